@@ -249,6 +249,10 @@ func init() {
 					}
 					if (plan+i)%5 == 0 {
 						pr = &query.PageRequest{Offset: uint64(i), Limit: pr.Limit, Reverse: rev, CountTotal: i%2 == 0}
+						if (plan+i)%3 == 0 {
+							pr.Limit = []uint64{1001, 100000, 1 << 40, 1000}[(plan+i)%4] // "everything from here on"
+							w.Class("c17.offset-page-with-huge-limit")
+						}
 					}
 					var br banktypes.QueryTotalSupplyResponse
 					if err := w.C.Query("/cosmos.bank.v1beta1.Query/TotalSupply", &banktypes.QueryTotalSupplyRequest{Pagination: pr}, &br); err != nil {
